@@ -258,6 +258,21 @@ def removeSlice (x : Val) (lo hi : Option Val) : Out (Val × Val) :=
     .ok (.list (sliceOf xs lo hi), .list (xs.take p.1.toNat ++ xs.drop p.2.toNat))
   | _ => .throw
 
+/-- apply `f` at the place `x[i₁]…[iₙ]` (index steps through nested lists) -/
+def atPath (x : Val) (ixs : List Ix) (f : Val → Out (Val × Val)) : Out (Val × Val) :=
+  match ixs with
+  | [] => f x
+  | .index i :: rest =>
+    match x, asInt i with
+    | .list xs, some n | .stream xs, some n =>
+      match pyIndex xs.length n with
+      | some k =>
+        (ofOpt xs[k.toNat]?).bind fun old =>
+        (atPath old rest f).bind fun p => .ok (p.1, .list (xs.set k.toNat p.2))
+      | none => .throw
+    | _, _ => .throw
+  | .slice _ _ :: _ => .throw
+
 /-- `a |.. [k, v]` -/
 def updateAt (a k v : Val) : Out Val :=
   match a with
